@@ -597,6 +597,97 @@ def run_invlink(CR, base, ns, target, explicit, real=False, bi=0, pi=0):
     return refs, msgs, texts
 
 
+# ---- inventories loaded from local files through the real fetch_inventory (no stub): several keys may share one file
+
+LOCAL_KEYS = [("stable", "https://docs.invalid/stable/", 0), ("latest", "https://docs.invalid/latest", 0), ("other", "https://other.invalid/", 1)]
+LOCAL_LINKS = ["stable#one", "latest#one", "*#one", "latest:std:label#two", "other#one", "other#three", "stable#three", "s*#t*"]
+
+
+def run_local(CR, order, links, real=False):
+    """Three configured inventories (two of them the same local file under different base URLs), links rendered in one document."""
+    import os, tempfile, zlib
+    from docutils import nodes
+
+    with tempfile.TemporaryDirectory(prefix="symx_c19_") as d:
+        files = []
+        for i, body in enumerate([b"one std:label -1 one.html#$ -\ntwo std:label -1 dir/two.html Two words\n", b"three std:label -1 three.html -\n"]):
+            path = os.path.join(d, "objects%d.inv" % i)
+            open(path, "wb").write(b"# Sphinx inventory version 2\n# Project: P\n# Version: 1\n# The remainder of this file is compressed using zlib.\n" + zlib.compress(body))
+            files.append(path)
+        keys = [LOCAL_KEYS[i] for i in order]
+        ctx = CR.new_context(real=real, config={"inventories": {k: (base, files[fi]) for k, base, fi in keys}})
+        text = "\n\n".join("<inv:%s>" % l_ for l_ in links) + "\n"
+        ctx.renderer._render_tokens(ctx.md.parse(text, ctx.renderer.md_env))
+        out = []
+        for para in ctx.document.findall(nodes.paragraph):
+            if isinstance(para.parent, nodes.system_message):
+                continue
+            out.append([r.get("refuri") for r in para.findall(nodes.reference)])
+        msgs = [m.astext() for m in CR.messages(ctx.document)]
+        return out, msgs
+
+
+def expected_local(order, link):
+    """refuri of the first match in configured order (None if nothing matches) and the number of matches."""
+    path, _, target = link.partition("#")
+    parts = path.split(":")
+    entries = {0: [("one", "one.html#one"), ("two", "dir/two.html")], 1: [("three", "three.html")]}
+    hits = []
+    for i in order:
+        key, base, fi = LOCAL_KEYS[i]
+        if not spec_match(key, parts[0]):
+            continue
+        for name, loc in entries[fi]:
+            if spec_match(name, target):
+                hits.append(base + ("" if base.endswith("/") else "/") + loc)
+    return (hits[0] if hits else None), len(hits)
+
+
+def check_local(order, links, got):
+    out, msgs = got
+    if len(out) != len(links):
+        return ("local-paragraphs", "%d paragraphs for %d links" % (len(out), len(links)))
+    namb = nmiss = 0
+    for link, refs in zip(links, out):
+        want, n = expected_local(order, link)
+        if refs != ([want] if want else []):
+            return ("local-refuri", "<inv:%s> with inventories %r gives %r, expected %r" % (link, [LOCAL_KEYS[i][:2] for i in order], refs, want))
+        namb += n > 1
+        nmiss += n == 0
+    if sum("[myst.iref_ambiguous]" in m for m in msgs) != namb or sum("[myst.iref_missing]" in m for m in msgs) != nmiss or any("[myst.inv_retrieval]" in m for m in msgs):
+        return ("local-warnings", "expected %d ambiguous / %d missing warnings: %r" % (namb, nmiss, msgs))
+    return None
+
+
+def make_local(eng):
+    from harness import common_render as CR
+    import itertools
+
+    CR.setup()
+    ORDERS = [list(p_) for p_ in itertools.permutations(range(3))] + [[0, 1], [1, 0]]
+    c = CR.Choice(eng, n=6, width=15)
+    state = {}
+    eng.witness_fn = lambda m: dict(state)
+
+    def body():
+        c.reset()
+        order = c.pick(ORDERS)
+        links = [c.pick(LOCAL_LINKS), c.pick(LOCAL_LINKS)]
+        state.update(local=[order, links])
+        try:
+            got = run_local(CR, order, links)
+        except Exception as exc:  # noqa
+            eng.fail("invlink-exception", "%s: %s" % (type(exc).__name__, exc))
+        err = check_local(order, links, got)
+        if err:
+            eng.fail(*err)
+        eng.passed(2)
+        eng.note("filter_nontrivial")
+        return "ok"
+
+    return body
+
+
 RELLOCS = ["l0.html", "l1.html#x", "l2.html"]
 
 
@@ -635,6 +726,8 @@ def families(tier, seed):
     for nn in ([1, 2] if q else [2, 3]):
         F.append(Family("F/names%d" % nn, make_filter, "2 inventories / 3 domain:type groups / 5 entries, 2 symbolic names of %d chars over 'a*\\\\.b', filter quadruple from %d patterns each" % (nn, len(PATS)),
                         args=dict(nname=nn), nontrivial="filter_nontrivial", required=(nn <= 1 if q else nn <= 2), max_forks=20000))
+    F.append(Family("L/local-files", make_local, "inventories read by the real fetch_inventory from local files: keys %r in every order (two keys share one file under different base URLs) x two links from %r" % ([k_[:2] for k_ in LOCAL_KEYS], LOCAL_LINKS),
+                    nontrivial="filter_nontrivial", max_forks=5000))
     F.append(Family("L/bases", make_invlink, "inv: link against 3 entries with 1 symbolic name char each, base URL from %r (with / without trailing slash, none)" % (BASES,), args=dict(nname=1, bases=(0, 1, 2, 3)),
                     nontrivial="filter_nontrivial", max_forks=40000))
     F.append(Family("L/paths", make_invlink, "inv: link whose path part filters inventory / domain / type: %r, against 3 entries with 1 symbolic name char each in two inventories" % (PATHS,), args=dict(nname=1, paths=tuple(range(len(PATHS)))),
@@ -675,6 +768,16 @@ def replay(label, witness):
             return ("C19/exception:%s" % type(e).__name__, "match_with_wildcard(%r, %r) raised %r" % (n_, p_, e))
         exp = spec_match(n_, p_)
         return None if got == exp else ("C19/wildcard:%s" % _classify(p_, n_), "match_with_wildcard(name=%r, pattern=%r) = %r, documented semantics = %r" % (n_, p_, got, exp))
+    if "local" in witness:
+        from harness import common_render as CR
+
+        order, links = witness["local"]
+        try:
+            got = run_local(CR, order, links, real=True)
+        except Exception as e:  # noqa
+            return ("C19/invlink-exception:%s" % type(e).__name__, "%r" % (e,))
+        err = check_local(order, links, got)
+        return ("C19/%s" % err[0], err[1]) if err else None
     if "target" in witness:
         from harness import common_render as CR
         import myst_parser.mdit_to_docutils.base as rbase
